@@ -446,9 +446,12 @@ func slowGenBankOriginParser(length int) pars.Parser {
 					extent++
 				}
 			}
-			if extent != len(q) {
-				pos.Byte += extent
-				return pars.NewError("expected newline", pos)
+			// anything after the residues of a line must be blank padding
+			for _, c := range q[extent:] {
+				if c != spaceByte {
+					pos.Byte += extent
+					return pars.NewError("expected newline", pos)
+				}
 			}
 
 			offset += copy(p[offset:], q[:extent])
